@@ -272,9 +272,11 @@ fn obj_json(obj: &InMemDicomObject, big: bool) -> Value {
 /// compare an observed object projection with the expected one (ObjectBuild!Obj);
 /// returns a description of the first difference
 fn cmp_obj(exp: &Value, obs: &Value, path: &str) -> Option<String> {
-    cmp_obj_opt(exp, obs, path, true)
+    cmp_obj_opt(exp, obs, path, true, true)
 }
-fn cmp_obj_opt(exp: &Value, obs: &Value, path: &str, pixels: bool) -> Option<String> {
+/// `pixels`: compare the content of encapsulated pixel data; `item_len`: compare the
+/// recorded length of sequence items (not part of InMemDicomObject equality)
+fn cmp_obj_opt(exp: &Value, obs: &Value, path: &str, pixels: bool, item_len: bool) -> Option<String> {
     let (ea, oa) = (j_arr(exp), j_arr(obs));
     for (i, e) in ea.iter().enumerate() {
         let p = format!("{path}/{}", e["tag"]);
@@ -304,10 +306,10 @@ fn cmp_obj_opt(exp: &Value, obs: &Value, path: &str, pixels: bool) -> Option<Str
                     return Some(format!("{p}: {} items expected, {} observed", ei.len(), oi.len()));
                 }
                 for (k, (x, y)) in ei.iter().zip(oi.iter()).enumerate() {
-                    if x["len"] != y["len"] {
+                    if item_len && x["len"] != y["len"] {
                         return Some(format!("{p}/item{k}: len expected {} observed {}", x["len"], y["len"]));
                     }
-                    if let Some(d) = cmp_obj_opt(&x["els"], &y["els"], &format!("{p}/item{k}"), pixels) {
+                    if let Some(d) = cmp_obj_opt(&x["els"], &y["els"], &format!("{p}/item{k}"), pixels, item_len) {
                         return Some(d);
                     }
                 }
@@ -668,7 +670,7 @@ fn cmd_c07(args: &std::collections::HashMap<String, String>) {
                             }
                         }
                         // C07 is about alignment: the content of the pixel data element is C06's business
-                        if let Some(d) = cmp_obj_opt(&c["obj"], &ob, "", false) {
+                        if let Some(d) = cmp_obj_opt(&c["obj"], &ob, "", false, true) {
                             cls.add(format!("open file, {odd}: object differs"),
                                 json!({"level":"file","ts":ts,"odd":odd,"diff":{"what":"object","detail":d},"case":c,"observed":ob}));
                         }
@@ -749,6 +751,8 @@ fn cmd_c06(args: &std::collections::HashMap<String, String>) {
         }
     }
     let (mut n_files, mut n_whole, mut n_tok, mut n_stop, mut n_beh, mut n_calls, mut n_fragcalls) = (0usize, 0, 0, 0, 0, 0, 0);
+    let drift_item_len = Cell::new(0usize);
+    let trace_every: usize = args.get("trace-every").map(|s| s.parse().unwrap()).unwrap_or(1);
     let trace_path = format!("{out_dir}/trace_c06.ndjson");
     let mut tr = NdjsonWriter::create(&trace_path);
     let mut traced = 0usize;
@@ -805,18 +809,22 @@ fn cmd_c06(args: &std::collections::HashMap<String, String>) {
             n_tok += 1;
             let exp = j_arr(&f[mode]);
             let run = run_reader(&ds_bytes, ts, "Accept", mode, "Preserved", false, exp.len() + 50);
+            let mut ok = true;
             if let Some(d) = cmp_toks(exp, &run, "eof", total, true, true) {
+                ok = false;
                 let at = d.get("at").and_then(|x| x.as_u64()).unwrap_or(exp.len() as u64) as usize;
                 let after = last_header(exp, at);
                 cls.add(format!("{mode} reader: {} after {} [pixel data: {pc}]", j_str(&d["what"]), after_class(&after)),
                     json!({"fid":fid,"ts":ts,"mode":mode,"diff":d,"ds":f["ds"],"observed":run.toks,"end":run.end,"err":run.err}));
             }
-            traced += 1;
-            tr.emit(&json!({"ev":"reset","ts":ts,"odd":"Accept","mode":mode,"bytes":f["bytes"],"id":fid}));
-            for t in &run.toks {
-                tr.emit(&json!({"ev":"tok","t":t["t"],"tag":t["tag"],"vr":t["vr"],"len":t["len"],"pos":t["pos"],"cons":t["cons"]}));
+            if *fid as usize % trace_every == 0 || !ok {
+                traced += 1;
+                tr.emit(&json!({"ev":"reset","ts":ts,"odd":"Accept","mode":mode,"bytes":f["bytes"],"id":fid}));
+                for t in &run.toks {
+                    tr.emit(&json!({"ev":"tok","t":t["t"],"tag":t["tag"],"vr":t["vr"],"len":t["len"],"pos":t["pos"],"cons":t["cons"]}));
+                }
+                tr.emit(&json!({"ev":"end","res":run.end,"cons":run.cons,"pos":run.pos}));
             }
-            tr.emit(&json!({"ev":"end","res":run.end,"cons":run.cons,"pos":run.pos}));
         }
 
         // stop rules
@@ -909,8 +917,12 @@ fn cmd_c06(args: &std::collections::HashMap<String, String>) {
                                         a.pop();
                                     }
                                 }
-                                if let Some(d) = cmp_obj(&call["res"], &ob, "") {
+                                // the recorded length of an item is not part of the equality of
+                                // objects; a difference there is reported as drift only
+                                if let Some(d) = cmp_obj_opt(&call["res"], &ob, "", true, false) {
                                     fail(format!("collector {name}: {} [pixel data: {pc}]", diff_kind(&d)), json!({"detail":d,"observed":ob}));
+                                } else if cmp_obj(&call["res"], &ob, "").is_some() {
+                                    drift_item_len.set(drift_item_len.get() + 1);
                                 }
                             }
                             Err(e) => fail(format!("collector {name}: error [pixel data: {pc}]"), json!(format!("{e}"))),
@@ -979,6 +991,7 @@ fn cmd_c06(args: &std::collections::HashMap<String, String>) {
                    ("traced_cases", traced), ("trace_events", events)] {
         rep.extra.insert(k.into(), json!(v));
     }
+    rep.extra.insert("drift_item_len".into(), json!(drift_item_len.get()));
     rep.extra.insert("trace_path".into(), json!(trace_path));
     rep.print();
 }
